@@ -21,7 +21,14 @@ pub enum Op {
     Tick(u8),
     /// publish request; true = acknowledge everything received so far
     Publish(bool),
+    /// publish request with a timeout hint of its own (730 ms / 3010 ms / 12345 ms): it can go stale before an older request
+    PublishWithHint(bool, u8),
 }
+
+/// never a multiple of the 50 ms clock steps, so "exactly at the deadline" cannot happen
+const HINTS: [u32; 3] = [730, 3010, 12345];
+/// Session's publish request timeout (server/session.rs), used for requests without a (smaller) hint
+const DEFAULT_PUBLISH_TIMEOUT_MS: i64 = 30_000;
 
 const INTERVALS: [f64; 3] = [100.0, 250.0, 1000.0];
 const DELTAS: [i64; 4] = [50, 100, 250, 1000];
@@ -34,7 +41,8 @@ fn op() -> impl Strategy<Value = Op> {
         1 => (0u8..3, 0u8..4).prop_map(|(s, i)| Op::DeleteItem(s, i)),
         8 => (0u8..4, proptest::bool::weighted(0.85)).prop_map(|(v, c)| Op::Write(v, c)),
         10 => (0u8..4).prop_map(Op::Tick),
-        7 => any::<bool>().prop_map(Op::Publish),
+        5 => any::<bool>().prop_map(Op::Publish),
+        3 => (any::<bool>(), 0u8..3).prop_map(|(a, h)| Op::PublishWithHint(a, h)),
     ]
 }
 
@@ -71,6 +79,10 @@ struct Model {
     subs: Vec<MSub>,
     /// request ids queued and not yet answered, oldest first
     queue: VecDeque<u32>,
+    /// request id -> the moment after which the request is stale
+    deadlines: std::collections::BTreeMap<u32, chrono::DateTime<chrono::Utc>>,
+    /// requests that went stale at the current timer tick and must be answered BadTimeout by it
+    expired_now: Vec<u32>,
     answered: Vec<u32>,
     unacked: Vec<(u32, u32)>,
     pending_while_queue_empty: bool,
@@ -97,7 +109,22 @@ impl Model {
 
 fn absorb(ctx: &Ctx, m: &mut Model, step: usize, out: Vec<(u32, opcua::core::supported_message::SupportedMessage)>) -> PResult {
     for (rid, msg) in out {
-        // (A) pairing: the oldest queued request is answered
+        // (A0) a request that went stale is answered BadTimeout, wherever it is in the queue; nothing else may time out
+        if matches!(crate::subs::classify(&msg), Delivered::Fault(StatusCode::BadTimeout)) {
+            if let Some(pos) = m.expired_now.iter().position(|x| *x == rid) {
+                m.expired_now.remove(pos);
+                m.queue.retain(|x| *x != rid);
+                m.answered.push(rid);
+                continue;
+            }
+            return ctx.fail("pairing/timeout-for-a-live-request", format!("step {}: request {} was answered BadTimeout although it is not stale (queue {:?})", step, rid, m.queue));
+        }
+        if !m.expired_now.is_empty() && m.expired_now.contains(&rid) {
+            return ctx.fail("pairing/stale-request-answered", format!("step {}: request {} went stale at this tick but was answered with a publish response", step, rid));
+        }
+        // (A) pairing: the oldest queued request that is not stale is answered
+        let stale: Vec<u32> = m.expired_now.clone();
+        m.queue.retain(|x| !stale.contains(x) || *x == rid);
         match m.queue.pop_front() {
             Some(expect) if expect == rid => {}
             Some(expect) => {
@@ -153,7 +180,7 @@ fn absorb(ctx: &Ctx, m: &mut Model, step: usize, out: Vec<(u32, opcua::core::sup
 
 fn run(ctx: &Ctx, ops: &Vec<Op>) -> PResult {
     let mut fx = SubFix::new();
-    let mut m = Model { subs: Vec::new(), queue: VecDeque::new(), answered: Vec::new(), unacked: Vec::new(), pending_while_queue_empty: false, nontrivial: false };
+    let mut m = Model { subs: Vec::new(), queue: VecDeque::new(), deadlines: Default::default(), expired_now: Vec::new(), answered: Vec::new(), unacked: Vec::new(), pending_while_queue_empty: false, nontrivial: false };
     let mut next_handle = 100u32;
     // values written are unique per case and differ from what the shared variables hold
     let mut counter = (0..crate::subs::N_VARS).map(|v| fx.read(v)).max().unwrap_or(0).wrapping_add(1000);
@@ -186,8 +213,18 @@ fn run(ctx: &Ctx, ops: &Vec<Op>) -> PResult {
                 }
             }
         }
+        // the timer task first expires stale publish requests
+        m.expired_now = m.queue.iter().copied().filter(|rid| m.deadlines.get(rid).map(|d| now > *d).unwrap_or(false)).collect();
+        if !m.expired_now.is_empty() && m.expired_now[0] != *m.queue.front().unwrap() {
+            ctx.class("request_went_stale_before_an_older_one");
+            m.nontrivial = true;
+        }
         let out = fx.tick(ctx, delta)?;
-        absorb(ctx, m, step, out)
+        absorb(ctx, m, step, out)?;
+        if let Some(rid) = m.expired_now.first() {
+            return ctx.fail("pairing/stale-request-not-answered", format!("step {}: request {} went stale at this tick but was not answered BadTimeout", step, rid));
+        }
+        Ok(())
     };
 
     for (i, op) in ops.iter().enumerate() {
@@ -263,12 +300,19 @@ fn run(ctx: &Ctx, ops: &Vec<Op>) -> PResult {
                 }
             }
             Op::Tick(d) => do_tick(ctx, &mut fx, &mut m, i, DELTAS[*d as usize % 4])?,
-            Op::Publish(ack) => {
+            Op::Publish(..) | Op::PublishWithHint(..) => {
+                let (ack, hint) = match op {
+                    Op::Publish(a) => (a, 0u32),
+                    Op::PublishWithHint(a, h) => (a, HINTS[*h as usize % HINTS.len()]),
+                    _ => unreachable!(),
+                };
                 let acks: Vec<(u32, u32)> = if *ack { m.unacked.drain(..).filter(|(s, _)| m.subs.iter().any(|x| x.id == *s && !x.deleted)).collect() } else { Vec::new() };
                 if m.pending_while_queue_empty {
                     m.nontrivial = true;
                 }
-                let (rid, r, out) = fx.publish(ctx, &acks, None, 0)?;
+                let (rid, r, out) = fx.publish(ctx, &acks, None, hint)?;
+                let timeout = if hint > 0 && (hint as i64) < DEFAULT_PUBLISH_TIMEOUT_MS { hint as i64 } else { DEFAULT_PUBLISH_TIMEOUT_MS };
+                m.deadlines.insert(rid, fx.now + chrono::Duration::milliseconds(timeout));
                 match r {
                     Ok(()) => m.queue.push_back(rid),
                     Err(StatusCode::BadNoSubscription) | Err(StatusCode::BadTooManyPublishRequests) => {}
@@ -284,6 +328,7 @@ fn run(ctx: &Ctx, ops: &Vec<Op>) -> PResult {
         let before: usize = m.subs.iter().flat_map(|s| s.items.iter()).map(|i| i.delivered.len()).sum();
         let acks: Vec<(u32, u32)> = m.unacked.drain(..).filter(|(s, _)| m.subs.iter().any(|x| x.id == *s && !x.deleted)).collect();
         let (rid, r, out) = fx.publish(ctx, &acks, None, 0)?;
+        m.deadlines.insert(rid, fx.now + chrono::Duration::milliseconds(DEFAULT_PUBLISH_TIMEOUT_MS));
         if r.is_ok() {
             m.queue.push_back(rid);
         }
@@ -326,7 +371,7 @@ fn run(ctx: &Ctx, ops: &Vec<Op>) -> PResult {
 pub fn def() -> PropDef {
     PropDef {
         id: "C21",
-        rule: "histories of up to 62 operations (create/delete subscription with interval 100/250/1000 ms, create/delete monitored item on 4 variables, write a changed or unchanged value, timer tick after 50/100/250/1000 ms, publish request with or without acknowledgements) on one real session with a simulated clock, followed by a drain of publish requests and ticks; model: per item the sequence of values sampled at each elapsed publishing interval; oracle: every response answers the oldest queued request, delivered values are always a prefix of the sampled values and equal them after the drain, notification sequence numbers strictly increase per subscription; non-trivial = a change was sampled while no publish request was queued and a publish request came later; distinct = distinct history",
+        rule: "histories of up to 62 operations (create/delete subscription with interval 100/250/1000 ms, create/delete monitored item on 4 variables, write a changed or unchanged value, timer tick after 50/100/250/1000 ms, publish request with or without acknowledgements and with the default timeout or a timeout hint of 730 / 3010 / 12345 ms, so that a newer request can go stale before an older one) on one real session with a simulated clock, followed by a drain of publish requests and ticks; model: per item the sequence of values sampled at each elapsed publishing interval; oracle: a request is answered BadTimeout exactly when it is stale at a timer tick, every other response answers the oldest queued request that is not stale, delivered values are always a prefix of the sampled values and equal them after the drain, notification sequence numbers strictly increase per subscription; non-trivial = a change was sampled while no publish request was queued and a publish request came later; distinct = distinct history",
         assumptions: &[
             "publishing stays enabled, lifetime count 3000 and keep-alive count 50 so that no subscription expires within a history",
             "sampling interval -1 (sample when the publishing interval elapses), queue size 10: the item queue never overflows because it is emptied at every elapsed interval",
